@@ -12,6 +12,7 @@ Supported: assignments (names, tuples), augmented `+=`, `if/else` assigning the 
 (`r = np.empty_like(d); m = d < 1; n = ~m; r[m] = f(d[m]); r[n] = g(d[n])` -> `if d < 1 then f d else g d`).
 """
 import ast
+from fractions import Fraction
 import hashlib
 import os
 import sys
@@ -726,7 +727,82 @@ def generate_io():
                      [("field.shape", "fshape", "intlist"), ("field.values", "fvals", "ratlist"), ("shape", "shape", "intlist"),
                       ("data_range", "dataRange", "ratlist")], "unit"),
     ]
+    parts.append(translate_load_surfer())
     return HEADER_IO + "\n".join(parts) + "\nend Verde.Gen\n"
+
+
+def translate_load_surfer():
+    """The `try:` body of load_surfer: header, loadtxt, blank mask, integrity check, coordinates, DataArray (structural)."""
+    path = "verde/io.py"
+    src = open(os.path.join(REPO, path)).read()
+    fn = find_func(ast.parse(src), "load_surfer")
+    tries = [x for x in fn.body if isinstance(x, ast.Try)]
+    if len(tries) != 1 or not tries[0].finalbody:
+        _fail(fn, "load_surfer: one try/finally")
+    b = tries[0].body
+    un = ast.unparse
+    lines = []
+    k = 0
+    st = b[k]
+    if not (isinstance(st, ast.Assign) and isinstance(st.targets[0], ast.Tuple) and un(st.value) == "_read_surfer_header(input_file)"
+            and [e.id for e in st.targets[0].elts] == ["grid_id", "shape", "region", "data_range"]):
+        _fail(st, "grid_id, shape, region, data_range = _read_surfer_header(input_file)")
+    lines.append("let (grid_id, shape, region, data_range) ← Gen.readSurferHeader input_file      -- " + un(st))
+    k += 1
+    if un(b[k]) != "field = np.loadtxt(input_file, dtype=dtype)":
+        _fail(b[k], "field = np.loadtxt(input_file, dtype=dtype)")
+    lines.append("let field ← loadtxtE body      -- np.loadtxt on the remaining lines (values already at the requested dtype)")
+    k += 1
+    st = b[k]
+    ok = (isinstance(st, ast.Assign) and _is_name(st.targets[0], "nans") and isinstance(st.value, ast.Compare) and _is_name(st.value.left, "field")
+          and isinstance(st.value.ops[0], ast.GtE) and isinstance(st.value.comparators[0], ast.Constant) and isinstance(st.value.comparators[0].value, float))
+    if not ok:
+        _fail(st, "nans = field >= <literal>")
+    lit = Fraction(st.value.comparators[0].value)
+    k += 1
+    if un(b[k]) != "if np.any(nans):\n    field = np.ma.masked_where(nans, field)":
+        _fail(b[k], "masking of the blanked values")
+    lines.append(f"let field_masked := field.map (maskRow blank)      -- {un(st)} (the literal at the array's dtype = `blank`); np.ma.masked_where(nans, field)")
+    k += 1
+    if un(b[k]) != "_check_surfer_integrity(field, shape, data_range)":
+        _fail(b[k], "_check_surfer_integrity(field, shape, data_range)")
+    lines.append("let _ ← Gen.checkSurferIntegrity (fieldShape field) (field_masked.flatten.filterMap id) shape data_range      -- (min/max of a masked array skip the masked cells)")
+    k += 1
+    rest = {un(x).split(" = ")[0]: x for x in b[k:] if isinstance(x, ast.Assign)}
+    if un(rest.get("dims", ast.Constant(0)).value if "dims" in rest else ast.Constant(0)) != "('northing', 'easting')":
+        _fail(b[k], "dims = ('northing', 'easting')")
+    c = rest.get("coords")
+    if c is None or not isinstance(c.value, ast.Dict) or sorted(getattr(kk, "value", None) for kk in c.value.keys) != ["easting", "northing"]:
+        _fail(b[k], "coords = {'northing': ..., 'easting': ...}")
+
+    def lin(v):
+        """np.linspace(*region[a:b], shape[i]) -> ((a, a+1), i)"""
+        if not (isinstance(v, ast.Call) and un(v.func) == "np.linspace" and len(v.args) == 2 and isinstance(v.args[0], ast.Starred)
+                and isinstance(v.args[0].value, ast.Subscript) and _is_name(v.args[0].value.value, "region") and isinstance(v.args[0].value.slice, ast.Slice)
+                and isinstance(v.args[1], ast.Subscript) and _is_name(v.args[1].value, "shape") and _const_int(v.args[1].slice) in (0, 1)):
+            _fail(v, "np.linspace(*region[a:b], shape[i])")
+        sl = v.args[0].value.slice
+        lo = 0 if sl.lower is None else _const_int(sl.lower)
+        hi = 4 if sl.upper is None else _const_int(sl.upper)
+        if (lo, hi) not in ((0, 2), (2, 4)) or sl.step is not None:
+            _fail(v, "region slice")
+        return lo, _const_int(v.args[1].slice)
+    m = {kk.value: lin(vv) for kk, vv in zip(c.value.keys, c.value.values)}
+    for nm in ("northing", "easting"):
+        lo, i = m[nm]
+        lines.append(f"let {nm} ← linspaceE region{QUAD_PROJ[lo]} region{QUAD_PROJ[lo + 1]} (← idxI shape {i})      -- '{nm}': {un(dict(zip([kk.value for kk in c.value.keys], c.value.values))[nm])}")
+    d = rest.get("data")
+    if d is None or un(d.value) != "xr.DataArray(field, coords=coords, dims=dims, attrs=attrs)":
+        _fail(b[-1], "data = xr.DataArray(field, coords=coords, dims=dims, attrs=attrs)")
+    if un(rest.get("attrs").value if "attrs" in rest else ast.Constant(0)) != "{'gridID': grid_id}":
+        _fail(b[k], "attrs = {'gridID': grid_id}")
+    lines.append("return ⟨shape, northing, easting, field_masked, grid_id⟩      -- xr.DataArray(field, coords=coords, dims=('northing', 'easting'), attrs={'gridID': grid_id, ...})")
+    seg = ast.get_source_segment(src, fn)
+    return (f"/-- translated from the `try:` body of {path}:{fn.lineno}-{fn.end_lineno} (load_surfer), sha256 {hashlib.sha256(seg.encode()).hexdigest()[:16]};\n"
+            f"    blank threshold literal in the source: {st.value.comparators[0].value!r} = {lit.numerator}/{lit.denominator} -/\n"
+            f"def surferBlankLiteral : Rat := ({lit.numerator} : Rat) / {lit.denominator}\n"
+            "def loadSurferTry (input_file : List SLine) (body : List (List Rat)) (blank : Rat) : Except Err SurferGrid := do\n"
+            + "\n".join("  " + ln for ln in lines) + "\n")
 
 
 def main_io(write=True):
@@ -1894,7 +1970,8 @@ class DoT:
         return p + [f"let {r} ← floatsE {t}"], r, "ratlist"
 
     def ex(self, n):
-        if isinstance(n, ast.Attribute) and n.attr in ("shape", "size") and isinstance(n.value, (ast.Name, ast.Subscript)):
+        if isinstance(n, ast.Attribute) and n.attr in ("shape", "size") and isinstance(n.value, (ast.Name, ast.Subscript)) \
+                and not (isinstance(n.value, ast.Name) and f"{n.value.id}.{n.attr}" in self.env):
             p, t, ty = self.ex(n.value)
             if ty == "shape":
                 return p, (t if n.attr == "shape" else f"(shapeSize {t})"), ("shape" if n.attr == "shape" else "nat")
